@@ -155,13 +155,13 @@ func run(cfg *runCfg, mode string) int {
 		}
 		if _, isIface := g.funcs[k]; !isIface {
 			// contract on an interface method or unknown function
-			if strings.HasPrefix(ct.Key, "(") && !strings.HasPrefix(ct.Key, "(*") && g.lookupIface(ct) {
+			if strings.HasPrefix(ct.Key, "(") && !strings.HasPrefix(ct.Key, "(*") && (g.lookupIface(ct) || ct.IfaceDecl) {
 				continue
 			}
 			fmt.Fprintf(os.Stderr, "ENGINE-ERROR: contract for unknown function %s (%s:%d)\n", k, ct.File, ct.Line)
 			return 2
 		}
-		if cfg.prop != "" && !contractMentions(ct, cfg.prop) {
+		if cfg.prop != "" && !contractMentions(ct, cfg.prop) && !protoMentions(cs, ct.Pkg, cfg.prop) {
 			continue
 		}
 		if re != nil && !re.MatchString(ct.Key) {
@@ -250,4 +250,13 @@ func (g *Gen) lookupIface(ct *Contract) bool {
 	}
 	_, ok := t.Underlying().(interface{ NumMethods() int })
 	return ok
+}
+
+func protoMentions(cs *ContractSet, pkg, prop string) bool {
+	for _, fp := range cs.FieldProto {
+		if fp.Pkg == pkg && (hasProp(fp.Props, prop) || (len(fp.Props) == 0 && prop == "C16")) {
+			return true
+		}
+	}
+	return false
 }
